@@ -44,7 +44,10 @@ MkRange(par) ==
       rng  == IF he THEN RangeElse("rg", form, kn, vn, asg, coll, body, <<T("empty"), P("ec", Ctx)>>)
               ELSE RangeS("rg", form, kn, vn, asg, coll, body)
       main == <<T("pre")>> \o pre \o <<rng, P("zctx", Ctx), P("zik", IsSetE("k")), T("post")>>
-  IN [ts |-> <<Tm("main", "", <<>>, main)>>, globals |-> NoVarsMap, runs |-> <<RunR("main", NoVarsMap, "D")>>,
+      \* with '=' the loop variables declared by the template shadow Execute variables of the same names: the nearest
+      \* declaration is the one assigned to (and read in the body)
+      vm   == IF asg = "=" THEN [NoVarsMap EXCEPT !["k"] = "vmk", !["v"] = "vmv"] ELSE NoVarsMap
+  IN [ts |-> <<Tm("main", "", <<>>, main)>>, globals |-> NoVarsMap, runs |-> <<RunR("main", vm, "D")>>,
       tag |-> (IF kind = "map" /\ n > 1 THEN "mapset|" ELSE "range|") \o kind \o "|" \o ToString(n) \o "|" \o form \o "|" \o asg
               \o "|" \o us \o "|" \o (IF he THEN "else" ELSE "noelse")]
 
